@@ -294,4 +294,22 @@ PROPS['C08'] = {
     'assumptions': [CORR, 'calls that share a cache dictionary use the same effective stylesheet snippet table (the cache is keyed by nothing else)'],
 }
 
+PROPS['C17'] = {
+    'lean_targets': ['EmmetProps.C17', 'EmmetProps.C16'],
+    'lean_imports': ['EmmetProps.C17', 'EmmetProps.C16'],
+    'theorems': [
+        thm('EmmetProps.C17_open_tag', 'any event list, any position: a get_open_tag result is a scanned tag whose range strictly contains the position', partial=True),
+        thm('EmmetProps.C17_select_next', 'select_item_html next = the FIRST open / self-closing tag ending after the position', partial=True),
+        thm('EmmetProps.C17_select_prev', 'select_item_html previous = an open / self-closing tag starting before the position', partial=True),
+        thm('EmmetProps.C17_class_tokens', 'all values / offsets: class-token ranges are non-empty and inside the value', partial=True),
+        thm('EmmetProps.C16_html_scan', 'the tags those helpers choose from are in-range slices `<…>` of the source, in order'),
+    ],
+    'domains': ['dom_action'],
+    'rule': 'generated HTML documents (as for C09, with recorded tags, attribute name / value ranges) and generated stylesheets (as for C10, plus rules whose last declaration is terminated by the end of the body) x every position: get_open_tag (tag + attributes), select_item_html next / previous (tag, name, attribute, unquoted value, class-token ranges), get_css_section with properties (name, value, value tokens, before, after), select_item_css next / previous (full, value, value-token ranges) against ground truth; plus random HTML / CSS fragment strings for range containment; non-trivial = a result at some position; distinct = distinct source',
+    'explanation': 'Selection logic of the HTML helpers and class-token ranges are theorems over all event lists / values; the attribute parser, the CSS helpers and exactness on rendered documents are decided by correspondence (model of the helpers over the scanner models) + ground-truth oracle.',
+    'level_text': 'Lean 4 theorems for the HTML helpers over ANY event list (which tag is selected) and for class-token ranges over ALL values (partial: attribute ranges come from html_matcher.attributes, not modelled; CSS helpers modelled, no theorem yet). Everything else: correspondence + ground-truth oracle on every position of generated documents.',
+    'level_note': 'Trusted: Lean kernel + standard axioms; models of action_utils/{html,css,utils}.py over the scanner models (0 differences on all explored inputs).',
+    'assumptions': [CORR],
+}
+
 NOT_APPLICABLE = {}
